@@ -94,6 +94,19 @@ def cases(rng, tier):
                     # cannot be cast back into the array's dtype is refused and nothing changes
                     q = dict(p, side="right", inplace=True, derived=None, vseed=rng.randint(0, 999))
                     out.append(q)
+    # ONE row (the column has one entry, which numpy-style broadcasting treats specially), operands of the same dtype (the result
+    # could be written into an operand): nothing but the result may change
+    for _ in range(60 if tier == "quick" else 600):
+        dt = rng.choice(["int64", "float64", "int8", "bool", "uint16", "float32"])
+        out.append({"lens": [rng.choice([1, 1, 2, 3])], "kind": rng.choice(["column", "column", "ragged", "npscalar"]), "side": rng.choice(["left", "right"]),
+                    "uf": rng.choice(["add", "multiply", "maximum", "minimum", "logical_or", "subtract"]), "dta": dt, "dtb": dt,
+                    "vseed": rng.randint(0, 999) * 5, "derived": None, "vmode": "small"})
+    # float operands made of +0.0 and -0.0 only (equal values, different signs) under sign-sensitive ufuncs
+    for _ in range(80 if tier == "quick" else 800):
+        lens = [rng.randint(0, 3) for _ in range(rng.randint(2, 5))]
+        out.append({"lens": lens, "kind": rng.choice(["column", "column", "ragged"]), "side": rng.choice(["left", "right"]),
+                    "uf": rng.choice(["true_divide", "copysign", "multiply", "arctan2", "minimum", "add"]), "dta": rng.choice(["float64", "float32", "int64"]),
+                    "dtb": rng.choice(["float64", "float32"]), "vseed": rng.randint(0, 999), "derived": rng.choice([None, None, "select"]), "vmode": "zeros"})
     # DERIVED ragged operands (results of selections / ufuncs / conversions, whose shape objects were built by the library) against
     # float columns of wildly different magnitudes, on shapes with and without empty rows: a broadcast that is exact for a fresh
     # array must be exact for a derived one
